@@ -39,7 +39,11 @@ Definition exb2 : list Qc := [q 0 1; q 1 1; q 0 1; q 1 1].
 Definition exsq2 : list (dataset Qc_OF) :=
   [ [(5%Z, [q 1 2; q 1 2]); (7%Z, [q 1 3; q 2 3])]; [(1%Z, [q 2 1; q (-1) 1]); (1%Z, [q 0 1; q 4 1])] ].
 Lemma ex_coded_ok : exists xs, calc_estimate_sequence (F:=Qc_OF) 4 2 exA2 exb2 exsq2 = E_ok xs /\ length xs = 2%nat.
-Proof. eexists. split; [vm_compute; reflexivity|reflexivity]. Qed.
+Proof.
+  assert (E : match calc_estimate_sequence (F:=Qc_OF) 4 2 exA2 exb2 exsq2 with E_ok xs => Nat.eqb (length xs) 2 | _ => false end = true)
+    by (vm_compute; reflexivity).
+  destruct (calc_estimate_sequence (F:=Qc_OF) 4 2 exA2 exb2 exsq2) as [xs| | | | |]; try discriminate E.
+  exists xs. split; [reflexivity|now apply Nat.eqb_eq]. Qed.
 
 (* ---- witness 1: the rank guard as coded (rank == min(shape)) passes for a WIDE matrix whose Gram matrix is singular *)
 Definition wA : matQ := mofr (F:=Qc_OF) [[q 1 1; q 0 1]].
